@@ -1,6 +1,7 @@
 pub mod c09;
 pub mod c10;
 pub mod c11;
+pub mod c12;
 pub mod lattice;
 pub mod paths;
 pub mod plan;
@@ -42,6 +43,15 @@ pub fn run_property(id: &str, opts: &Opts) -> i32 {
             ],
             Value::Null,
         ),
+        "C12" => (
+            vec![run_part::<c12::C12>(opts)],
+            &[
+                "finite angles only for the state constructors (the statement says 'all finite angles'); congruence is judged through sin/cos to 1e-15 (1+|v|) and only for |v| <= 1e12",
+                "SO3 centres are unit quaternions (plus one NaN centre); samplers are not run on cones with 1e-9 <= radius < 0.05",
+                "inputs partly outside [-pi, pi] may be accepted (clamped) or rejected; only the stored bounds are judged",
+            ],
+            Value::Null,
+        ),
         "C09" => (
             vec![run_part::<c09::C09>(opts)],
             &[
@@ -75,6 +85,7 @@ pub fn replay(opts: &Opts, doc: &Value) -> i32 {
     try_part!(c09::C09);
     try_part!(c10::C10);
     try_part!(c11::C11);
+    try_part!(c12::C12);
     match res {
         None => {
             out("replay: no part accepts this file");
